@@ -4,10 +4,12 @@
 use clvmr::allocator::Allocator;
 
 mod alloc_model;
+mod arith_find;
 mod findings;
 mod finding_f3;
 mod search;
 mod serde_find;
+mod ser26_find;
 mod decoder_find;
 mod opcost_find;
 mod prog_find;
